@@ -27,6 +27,7 @@ type c18Case struct {
 	FailAt   int      `json:"failat,omitempty"`
 	FailKind int      `json:"failkind,omitempty"` // 0 plain error, 1 wraps io.EOF, 2 wraps io.ErrUnexpectedEOF, 3 io.ErrUnexpectedEOF itself, 4 / 5 as 0 / 2 but returned together with data
 	Prev     *c18Prev `json:"prev,omitempty"`     // an earlier stream read (partly) through the same object before Reset
+	Split    int      `json:"split,omitempty"`    // how the options are applied: 0 one Apply call; 1 one Apply call per option; 2 as 1, the size option first and an empty Apply() last
 	Zero     string   `json:"zero,omitempty"`     // block | content: the data is patched so that the XXH32 of its first (stored) block / of the whole content is 0
 }
 
@@ -86,8 +87,27 @@ func runC18(c c18Case, rec *stat.Rec) *stat.Failure {
 	if c.Opts.Size {
 		opts = append(opts, lz4.SizeOption(uint64(len(data))))
 	}
-	if err := cr.Apply(opts...); err != nil {
-		return stat.Failf("C18/apply-rejects-valid-options", "%v", err)
+	switch c.Split {
+	case 0:
+		if err := cr.Apply(opts...); err != nil {
+			return stat.Failf("C18/apply-rejects-valid-options", "%v", err)
+		}
+	default:
+		// the options of one stream given in several Apply calls (each call must add to, not replace, what the earlier ones set)
+		if c.Split == 2 {
+			opts = append(append([]lz4.Option{}, opts[len(opts)-1]), opts[:len(opts)-1]...)
+		}
+		for _, o := range opts {
+			if err := cr.Apply(o); err != nil {
+				return stat.Failf("C18/apply-rejects-valid-options", "%v", err)
+			}
+		}
+		if c.Split == 2 {
+			if err := cr.Apply(); err != nil {
+				return stat.Failf("C18/apply-rejects-valid-options", "empty Apply: %v", err)
+			}
+		}
+		rec.Class("options/applied-in-several-calls")
 	}
 	rec.Eval()
 	var out []byte
@@ -206,6 +226,7 @@ func drawC18(t *rapid.T) c18Case {
 	var c c18Case
 	c.Opts = drawWopts(t, true, 0)
 	c.Opts.Conc, c.Opts.Legacy = 1, false
+	c.Split = rapid.SampledFrom([]int{0, 0, 1, 2}).Draw(t, "split")
 	if !thorough() && c.Opts.BS > 5 {
 		c.Opts.BS = 4
 	}
@@ -337,6 +358,6 @@ func TestC18ZeroChecksums(t *testing.T) {
 func TestC18(t *testing.T) {
 	rec := stat.For("C18")
 	rec.SetRule(c18Rule)
-	rec.Require("nontrivial", "sizes/aimed-at-field-boundaries", "reuse/reset-after-a-source-failure", "source-error-wrapping-EOF-passed-through", "source-error-kind-3-passed-through", "source-error-kind-4-passed-through", "sizes/below-header-size", "source-error-passed-through", "source/fragmented", "input/empty", "input/k*bs", "input/bs")
+	rec.Require("nontrivial", "options/applied-in-several-calls", "sizes/aimed-at-field-boundaries", "reuse/reset-after-a-source-failure", "source-error-wrapping-EOF-passed-through", "source-error-kind-3-passed-through", "source-error-kind-4-passed-through", "sizes/below-header-size", "source-error-passed-through", "source/fragmented", "input/empty", "input/k*bs", "input/bs")
 	checkProp(t, "C18", "C18/read", pick(6000, 150000), drawC18, runC18)
 }
